@@ -84,6 +84,13 @@ def h1(ctx, fx, H):
             f = w["fn"]
             if f.is_macro_generated() or f.name.startswith("issuer::"):
                 continue
+            # struct-update syntax / a rebuilt envelope that takes this member, unchanged, from the envelope parsed at construction
+            # (`SDJWTJson { disclosures, kb_jwt, ..original.clone() }`): a copy, not a new value
+            wv = w.get("value")
+            if w["how"] == "init" and wv is not None and must(wv, lambda x, fld=fld: x.kind == "field" and x.d.get("name") == fld and x.d.get("adt") == "SDJWTJson") \
+                    and not [x for x in walk(wv) if x.kind == "call" and x.d["term"].get("name") not in ("clone", "to_owned", "to_string", "as_ref", "deref", "unwrap", "branch", "ok_or", "ok_or_else", "as_str", "into", "from", "borrow")]:
+                ctx.ok("C06.H1", f, "json-part-copy:%s" % fld, "SDJWTJson.%s of the rebuilt envelope is copied unchanged from the parsed one" % fld, line=w["line"])
+                continue
             ctx.finding("C06.H1", f, "json-part-writer:%s" % fld, "SDJWTJson.%s is written outside serde's derive and the issuer's assembly" % fld, line=w["line"])
     ctx.ok("C06.H1", None, "json-parts", "SDJWTJson.protected/payload/signature are written only by derive-generated code and the issuer")
 
